@@ -40,6 +40,12 @@ func c16Gen(r *rand.Rand, tier string) []spec.Case {
 			add(spec.C16Case{Cookie: "correct", CfgCookie: "normal", Proto: pick(r, []string{"netrpc", "grpc"}), TLS: pick(r, []string{"none", "provider", "clientcert"}), Sets: st, MuxEnv: pick(r, muxes), Versions: vs, Strace: tier == "thorough" || r.Intn(2) == 0})
 		}
 	}
+	// socket directories whose names contain characters that are special somewhere
+	for _, sd := range []string{"s%41b%sd", "with space", "q'uo\"te", "ünï", "%v%d%%", "a;b&c"} {
+		for _, mx := range []string{"unset", "true", "false"} {
+			add(spec.C16Case{Cookie: "correct", CfgCookie: "normal", Proto: pick(r, []string{"netrpc", "grpc"}), TLS: "none", Sets: "legacy", MuxEnv: mx, SockDir: sd, Strace: tier == "thorough" || r.Intn(3) == 0})
+		}
+	}
 	// a process that served in test mode before: the cookie rules still hold for the real Serve afterwards
 	for _, ck := range cookies {
 		for _, pr := range []string{"netrpc", "grpc"} {
@@ -71,7 +77,7 @@ func c16Judge(c spec.Case, evs []spec.Event, d *Death) CaseResult {
 		return CaseResult{Verdict: "inconclusive", Inconcl: o.SetupErr}
 	}
 	res := CaseResult{Verdict: "held", Counters: map[string]int{}}
-	res.Class = fmt.Sprintf("cookie=%s cfg=%s %s tls=%s mux=%s traced=%v versions=%q pretest=%v", p.Cookie, p.CfgCookie, p.Proto, p.TLS, p.MuxEnv, p.Strace, p.Versions, p.PreTest)
+	res.Class = fmt.Sprintf("cookie=%s cfg=%s %s tls=%s mux=%s traced=%v versions=%q pretest=%v sockdir=%q", p.Cookie, p.CfgCookie, p.Proto, p.TLS, p.MuxEnv, p.Strace, p.Versions, p.PreTest, p.SockDir)
 	res.Sample = map[string]any{"case": p, "exited": o.Exited, "exit_code": o.ExitCode, "stdout": trunc(string(o.Stdout), 120), "sockets": len(o.Sockets), "binds": o.Binds, "listen_before_line": o.ListenBefore, "writes_to_fd1": o.Stdout1Writes}
 	viol := func(key, msg string) {
 		res.Verdict = "violated"
@@ -135,6 +141,9 @@ func c16Judge(c spec.Case, evs []spec.Event, d *Death) CaseResult {
 			}
 		} else if parts[1] != wantV {
 			viol("version-field", fmt.Sprintf("announced version %s, want %s", parts[1], wantV))
+		}
+		if p.SockDir != "" && !strings.Contains(parts[3], "/"+p.SockDir+"/") {
+			viol("address-field", fmt.Sprintf("the announced address %q is not inside the socket directory %q the plugin was given", parts[3], p.SockDir))
 		}
 		if parts[2] != "unix" || parts[3] == "" {
 			viol("address-field", "network/address fields: "+parts[2]+" "+parts[3])
